@@ -7,6 +7,7 @@ import (
 	"encoding/json"
 	"encoding/xml"
 	"fmt"
+	"hash/fnv"
 	"net/url"
 	"os"
 	"sort"
@@ -425,17 +426,34 @@ func (w *rbWorld) upload(setup, cl *s3c.Client) (ack bool, refused string, err e
 			return false, "CreateMultipartUpload:" + errClass(r), nil
 		}
 		var cps []CPart
+		// part numbers: 1..n, or (every other key) sparse numbers 2, 5, 9 with unlisted
+		// decoy parts 1 and 3 of other content: the object is made of the LISTED parts
+		nums := []int{1, 2, 3}
+		if h := fnv.New32a(); true {
+			h.Write([]byte(w.key))
+			if h.Sum32()%2 == 1 {
+				nums = []int{2, 5, 9}
+				for _, dn := range []int{1, 3} {
+					decoy := Content(w.key+"-decoy", len(w.req.parts[0]))
+					r := w.retry("UploadPart", func() *s3c.Resp { return UploadPart(cl, w.bucket, w.key, uid, dn, decoy) })
+					if !r.OK() {
+						AbortMPU(cl, w.bucket, w.key, uid)
+						return false, "UploadPart:" + errClass(r), nil
+					}
+				}
+			}
+		}
 		for i, p := range w.req.parts {
 			pc := cl
 			if i%2 == 1 {
 				pc = setup // parts alternate over the gateway processes of the assignment
 			}
-			r := w.retry("UploadPart", func() *s3c.Resp { return UploadPart(pc, w.bucket, w.key, uid, i+1, p) })
+			r := w.retry("UploadPart", func() *s3c.Resp { return UploadPart(pc, w.bucket, w.key, uid, nums[i], p) })
 			if !r.OK() {
 				AbortMPU(cl, w.bucket, w.key, uid)
 				return false, "UploadPart:" + errClass(r), nil
 			}
-			cps = append(cps, CPart{N: i + 1, ETag: r.Header.Get("ETag")})
+			cps = append(cps, CPart{N: nums[i], ETag: r.Header.Get("ETag")})
 		}
 		r = w.retry("CompleteMultipartUpload", func() *s3c.Resp { return CompleteMPU(cl, w.bucket, w.key, uid, cps) })
 		if !r.OK() || bytes.Contains(r.Body, []byte("<Error>")) {
